@@ -880,6 +880,29 @@ func sentinelIf(d *Decl) []reflect.StructField {
 	return nil
 }
 
+// Option returns the library's Option object of a declared option (found in the groups of its owning command).
+func (b *Built) Option(o *Opt) *flags.Option {
+	fc := b.Cmds[o.Owner]
+	if fc == nil {
+		return nil
+	}
+	var find func(g *flags.Group) *flags.Option
+	find = func(g *flags.Group) *flags.Option {
+		for _, fo := range g.Options() {
+			if fo.LongName == o.Long && (o.Short == "" || string(fo.ShortName) == o.Short) {
+				return fo
+			}
+		}
+		for _, gg := range g.Groups() {
+			if fo := find(gg); fo != nil {
+				return fo
+			}
+		}
+		return nil
+	}
+	return find(fc.Group)
+}
+
 // applyArgAPI sets what a program sets on the Arg values of a built parser.
 func (b *Built) applyArgAPI() {
 	for c, fc := range b.Cmds {
